@@ -130,6 +130,86 @@ CLAIMED = {
   "Trusted: Lean kernel; the hand-written models (tie = correspondence only); Go's collector modelled as an environment that "
   "fires finalisers only for unreferenced registered objects; runtime.SetFinalizer's double-set throw modelled as `fatal`; "
   "UnsafePool/SafePool not modelled; resource accounting of finalisers is C05/C06.", "6/C18"),
+ "C08": ("proof",
+  "Lean 4: model of the flag gate (GoCont.RunInThread) + generic closed-set theorem for call graphs, instantiated by "
+  "`decide +kernel` on the compliance table and call graph regenerated from /repo by extract/gofacts; correspondence of "
+  "every Go function reachable in a real runtime x 16 flag sets x spellings x argument tuples with inotify/process-table "
+  "(thorough: strace) observation of effects",
+  "Proved in full (lean/GoluaVerif/Props/C08.lean): gate_before_effect, gate_keeps_context_live, gate_passes, "
+  "missing_eq_zero_iff, required_flags_monotone(_chain), refused_in_parent_refused_in_child (model Model.Flags, tied to the "
+  "code by the harness: refuse/pass, missing-flag mask, no effect before the gate, context keeps running, nested contexts and "
+  "limit-implied flags); closed_set_sound, gated_closed_set_sound, checkCert_sound, validPath_reachable for ALL graphs; per-run "
+  "instances iosafe_no_sink, srcs_accounted, graph_complete, sinks_not_gates, gates_guard, compliance_table_resolved over the "
+  "regenerated tables, hence iosafe_clean_sources_reach_no_sink. iosafe_no_sink_through_gates_partial is conditional on "
+  "`holeSrcs = []`, which is false today (io.popen, recorded finding; hole_paths_counterexample proves the offending paths are paths).",
+  "Trusted: Lean kernel; extract/gofacts (go/packages + x/tools SSA, CHA for interface calls, VTA for function values, the AST "
+  "reader of SolemnlyDeclareCompliance sites) — cross-checked each run against the flags the real runtime holds (hook "
+  "VerifGoFunctionInfo); the by-name list of sinks and the one exempt edge (File.cleanup -> os.Remove of golua's own temp file); "
+  "stdlib code below a non-sink leaf is not analysed. See DESIGN.md section 6 (C08).", "6/C08"),
+ "C20": ("proof",
+  "Lean 4: generic non-interference theorem for two machines over a shared component (and its benign-write variant), per-run "
+  "`decide` instance over the table of package-level variables written after init, regenerated from /repo by extract/gofacts; "
+  "two-runtime replay (interleaved per statement, concurrent, thorough: race detector) against solo runs",
+  "Proved in full (lean/GoluaVerif/Props/C20.lean): frame_noninterference and frame_noninterference_upto for ALL machines and "
+  "schedules (induction over the interleaving), runSolo_obs, shared_write_interferes_counterexample. Per-run: "
+  "shared_writers_accounted_partial — every (variable, post-init writer reachable from runtime.New / a loader / a registered Go "
+  "function) is in Spec.Isolation.allowlist (os.Std* streams, each justified) or is one of six recorded defects (math/rand global "
+  "source, lib/base.gcRunning + debug.SetGCPercent, SolemnlyDeclareCompliance on package-level GoFunctions in base.Load); the full "
+  "statement sharedWriters ⊆ allowlist is false today (no_shared_writes_partial states it conditionally). Isolation of state hanging "
+  "off *Runtime (globals, string metatable, package.loaded, io defaults, quotas) rests on the replay only.",
+  "Trusted: Lean kernel; the package-level-variable write analysis in extract/gofacts (taint over SSA; sound only up to its rules, "
+  "see extract/gofacts/globals.go); the by-name list of process-wide state outside the module; the race detector only samples "
+  "schedules. See DESIGN.md section 6 (C20).", "6/C20"),
+ "C05": ("proof",
+  "Lean 4 model of the context manager over regenerated limit functions: kill_exact / kill_monotone / no_step_after_kill theorems + level A/B correspondence on the real Runtime + Lua-level limit sweeps",
+  "Props/C05.lean: limited_metered, kill_step_exact, kill_exact (killed iff L <= usage for every request list), kill_monotone, results_identical_when_not_killed, cpu_never_reaches_limit, kill_is_final, "
+  "no_step_after_kill, kill_returns_to_parent. Model/Ctx.lean mirrors runtimecontextmanager.go operation by operation on top of the REGENERATED Generated.Resources (smallerLimit, atLimit, Remove, Merge, Dominates, flag/status constants); Model/CallCtx.lean is Thread.CallContext with the deferred pop and recover explicit. Level B compares the whole context stack (limits, used, status, due, flags of every Parent()) after every operation on a real *rt.Runtime over 36^3 exhaustive boundary histories, random histories incl. API abuse near 2^64 and random CallContext trees; level A re-checks the Spec.Quota relations on the implementation's own trace; Lua legs sweep limits around each generated program's own usage. The Lua leg checks killed iff L <= u, identical trace when not killed, killed trace is a prefix, used < L on generated programs "
+  "(pcall loops, coroutines, handlers) x ~40 limits each.",
+  "Time limits, message handlers and coroutines are outside the model; 'real work between two counter increments is bounded' is sampled by amplification templates only (not proved). The interception of kills "
+  "through pcall found by this check is repaired in /repo (0426709); model and theorems for the repaired propagation are being brought to full strength (see DESIGN 14).", "6/C05, 14/C05"),
+ "C06": ("proof",
+  "Lean 4 model of memory accounting over regenerated limit functions: never-reaches-limit / monotone / balanced-release theorems + level A/B correspondence + Lua-level limit sweeps and amplification templates",
+  "Props/C06.lean: mem_never_reaches_limit, mem_kill_step_exact, mem_kill_monotone, release_no_underflow_in_frame, release_unlimited_is_noop, require_release_paired (compile pipeline model), and proved "
+  "counterexamples for release across frames. Model/Ctx.lean mirrors runtimecontextmanager.go operation by operation on top of the REGENERATED Generated.Resources (smallerLimit, atLimit, Remove, Merge, Dominates, flag/status constants); Model/CallCtx.lean is Thread.CallContext with the deferred pop and recover explicit. Level B compares the whole context stack (limits, used, status, due, flags of every Parent()) after every operation on a real *rt.Runtime over 36^3 exhaustive boundary histories, random histories incl. API abuse near 2^64 and random CallContext trees; level A re-checks the Spec.Quota relations on the implementation's own trace; Lua legs sweep limits around each generated program's own usage. Amplification templates (rep, concat, unpack, char, format, pack, load, coroutine.create loops, table growth) x N up to 2^40 under 1 MiB with a TotalAlloc bound.",
+  "Real heap growth versus accounted memory is sampled (TotalAlloc under GOMEMLIMIT), not proved; the charge-site extractor of the plan is not built. One recorded design-level defect: a coroutine charged in "
+  "one context and released in another (MEMREL-CORO: 'Too much mem released').", "6/C06, 14/C06"),
+ "C07": ("proof",
+  "Lean 4 invariant + conservation theorems over all legal histories of the context stack and over all CallContext trees, on regenerated Remove/Merge/Dominates; level A/B correspondence on the real Runtime",
+  "Props/C07.lean (24 theorems): push_hard_le_remaining, push_soft_le_hard, push_flags_superset, push_implied_flags, inv_initial/inv_preserved/inv_reachable (no hypothesis on amounts), used_lt_hard, "
+  "child_within_parent, pop_charges_parent, pop_status, conservation(+_nested) under the explicit no-overflow hypothesis with a proved counterexample without it, due_iff, soft_limit_does_not_kill, "
+  "status_truthful, call_keeps_stack_aligned, call_from_root_returns_to_root (mutual induction over every CallContext tree). Model/Ctx.lean mirrors runtimecontextmanager.go operation by operation on top of the REGENERATED Generated.Resources (smallerLimit, atLimit, Remove, Merge, Dominates, flag/status constants); Model/CallCtx.lean is Thread.CallContext with the deferred pop and recover explicit. Level B compares the whole context stack (limits, used, status, due, flags of every Parent()) after every operation on a real *rt.Runtime over 36^3 exhaustive boundary histories, random histories incl. API abuse near 2^64 and random CallContext trees; level A re-checks the Spec.Quota relations on the implementation's own trace; Lua legs sweep limits around each generated program's own usage.",
+  "Coroutines are outside the model: the context stack is runtime-wide, so a yield inside pcall leaves pcall's frame on top (recorded design-level defect C07-YIELD-IN-PCALL). Millis limits are not modelled.", "6/C07, 14/C07"),
+ "C01": ("proof",
+  "Lean 4 executable reference semantics of Lua 5.4 with machine-checked meta-theorems + whole-pipeline differential testing of golua against it",
+  "Props/C01.lean (25 theorems, for all programs, stores and fuel) proves that the reference semantics Spec.Lua is a function (fuel monotonicity, determinism), that no judgement ever loses "
+  "store state or trace events, and the manual's rules for truncation and expansion, assignment order, method calls, closure capture, fresh loop variables and pcall. On every run, 300 "
+  "(thorough: 20,000) generated programs x 3 renderings x 2 argument tuples are run through scanner, parser, compilers and VM, and compared with the compiled Lean interpreter on event trace, "
+  "results, error value and chunk:line: prefix.",
+  "The compiler stages and the VM are tied to the proved semantics by correspondence only. No theorem is about golua's compiler/VM code, and Model/Jumps, Model/RegAlloc and Model/Scopes of "
+  "the plan are not built. Trusted: the Go generator and renderers, the S-expression reader, the error-text classifier, and hardware floats. Not covered by the reference interpreter: "
+  "coroutines, os/io, string.format, pairs order, tostring of floats and tables, # with holes, and programs with more than one impure operand per operand list.", "6/C01, 14/C01"),
+ "C11": ("proof",
+  "Lean 4 reference semantics in error mode (Spec.Lua) + Model/ErrRoute mirror of runtime/error.go with theorems; differential testing with injected error sites",
+  "Props/C11.lean (25 theorems): error value identity, nearest handler only, the xpcall handler runs once at the raise point, the store after a catch is the store at the error and extends the "
+  "store before, position prefixes in Spec.Lua. AddContext idempotence, value intactness and levels in the ErrRoute mirror of runtime/error.go, and its agreement with Spec.Lua on messages. "
+  "Error sites of 21 classes at 13 position kinds, under pcall and xpcall nestings, are compared, with follow-up statements after each catch.",
+  "Coroutine boundaries are not exercised, because the reference interpreter has no coroutines. Errors inside message handlers and what a handler sees of errors in __close are excluded, as "
+  "the manual leaves them open. ErrRoute is hand-written; its tie to the code is the observed prefixes only. One recorded defect (line of errors raised in Go metamethods).", "6/C11, 14/C11"),
+ "C17": ("proof",
+  "Lean 4 models of lib/stringlib pack/unpack/packsize and of %q with round-trip theorems by induction over format options; spec of Lua 5.4 %q/reader/printf; level A+B correspondence through compiled Lua",
+  "Props/C17.lean: unpack_pack for all format strings and values (hypotheses: pack succeeded, values stored exactly, every X followed by a sized option), packsize_eq_length, "
+  "malformed_format_error(+_unpack), pack_rejects_overflow, sign_extension; q_roundtrip_string / _int / _float in full for the Lua 5.4 %q definition and an independently written Lua reader; "
+  "tonumber_tostring_int. About golua's own %q text only q_roundtrip_string_golua_partial (ASCII) and q_roundtrip_int_golua_partial (not mininteger) hold; 5 _counterexample theorems state "
+  "what is false today. The models are tied to the code by byte-exact correspondence on ~238k cases per quick run; 16 recorded defect families surface as KNOWN-FINDING.",
+  "Trusted: Lean kernel; unicode.IsPrint and strconv.FormatFloat (parameters of Model.Quote, exported per case / checked by reading back); budgets of pack/unpack not modelled; "
+  "string<->number coercions of pack arguments not modelled; float directives (%e %f %g %a) not checked.", "6/C17, 14/C17"),
+ "C13": ("proof",
+  "Lean 4 model of runtime/marshal.go's byte format with unmarshal(marshal c) = c by induction over nested prototypes and a totality theorem; prototype tree exported through a verif hook and compared byte-for-byte; Go-only behavioural leg; damaged dumps in a limited child process",
+  "Props/C13.lean: unmarshal_marshal(+_append), load_marshal, marshal_deterministic (injectivity), marshal_unmarshal_image, unmarshal_total (reader total on every byte string, fuel never "
+  "exhausted, strict consumption); counterexamples unmarshal_alloc_unbounded and unmarshal_noncanonical. Observational equivalence of f and load(string.dump(f)) (results, errors with line "
+  "info), re-dump equality and determinism are checked by execution only (correspondence), on generated chunks x 7 argument tuples.",
+  "Trusted: Lean kernel; the VM (the loaded function is run, not modelled); budgets not modelled; RefactorCodeConsts is exercised (its output is what is exported and dumped) but has no "
+  "theorem of its own; strip=true is ignored by golua and not exercised. Three recorded defects (allocation before validation, negative upvalue count, truncated string accepted).", "6/C13, 14/C13"),
 }
 
 NOT_YET = "machinery for this property is not built yet in this revision (see DESIGN.md section 9 build order); not claimed"
